@@ -337,11 +337,25 @@ func c14Rules(p *core.Prog, r *core.Run) {
 			if core.Root(s.Fn) != fn {
 				continue
 			}
-			switch s.X.Args[3].Name {
-			case `"A"`:
-				a = s.Instr.Common().Args[2]
-			case `"AAAA"`:
-				aaaa = s.Instr.Common().Args[2]
+			// one call site may serve both families (a loop over {"A", "AAAA"}),
+			// provided the name does not change from one iteration to the next
+			if len(s.X.Args[3].Alts()) > 1 {
+				hdr := innermostLoop(s.Fn, s.Instr.Block())
+				varies := s.X.Args[2].Any(func(e *core.Expr) bool {
+					ph, ok := e.Val.(*ssa.Phi)
+					return ok && hdr != nil && ph.Block() == hdr
+				})
+				if varies {
+					continue
+				}
+			}
+			for _, t := range s.X.Args[3].Alts() {
+				switch t.Name {
+				case `"A"`:
+					a = s.Instr.Common().Args[2]
+				case `"AAAA"`:
+					aaaa = s.Instr.Common().Args[2]
+				}
 			}
 		}
 		r.Check("C14.N8", p.FuncName(fn)+":A-and-AAAA-same-name", a != nil && a == aaaa, p.Pos(fn.Pos()), "the A and the AAAA lookup use the same name value (addresses of both families belong to the same owner)")
